@@ -1705,6 +1705,59 @@ def check_encoder(r, rule):
     r.rep.ob(rule, q, ok_idx, "the coordinate is chosen by a map of the character only (not of its position)", wh(r, q, e.node), expected="ans[position_map[char]]", found=found, key="enc map")
     z = strip(s.ret)
     r.rep.ob(rule, q, is_call(z, "numpy.zeros"), "the vector starts at zero", where, expected="np.zeros(dimension)", found=show(z, 60), key="enc zeros")
+    # every letter's coordinate lies inside the vector, for every compression 1..25: finite evaluation of the two integer expressions
+    # (only where both are plain arithmetic of the alphabet size, the letter's rank and the compression; anything else is left alone)
+    if is_call(z, "numpy.zeros") and z[2] and head(idx) == "sub":
+        m = strip(idx[1])
+        if head(m) == "alloc":
+            m = strip(m[2])
+        if head(m) == "comp" and m[1] == "dict" and len(m[3]) == 1 and head(strip(m[2])) == "tuple" and len(strip(m[2])[1]) == 2:
+            elem = m[3][0][0]
+            it = strip(elem[-1])
+            val = strip(m[2])[1][1]
+            alpha_n = 20
+            if is_call(it, "builtins.enumerate") and it[2] and strip(it[2][0]) == ("glob", "pyrepseq.io.aminoacids"):
+                import math as _m
+
+                class _No(Exception):
+                    pass
+
+                def ev(t, env):
+                    t = strip(t)
+                    if t in env:
+                        return env[t]
+                    if is_const(t) and isinstance(t[2], (int, float)) and not isinstance(t[2], bool):
+                        return t[2]
+                    if head(t) == "bin" and t[1] in ("+", "-", "*", "/", "//", "%"):
+                        a, b = ev(t[2], env), ev(t[3], env)
+                        return {"+": a + b, "-": a - b, "*": a * b, "/": a / b, "//": a // b, "%": a % b}[t[1]]
+                    if head(t) == "call" and head(strip(t[1])) == "glob" and len(t[2]) == 1 and not t[3]:
+                        n = strip(t[1])[1]
+                        if n == "builtins.len" and strip(t[2][0]) == ("glob", "pyrepseq.io.aminoacids"):
+                            return alpha_n
+                        a = ev(t[2][0], env)
+                        if n in ("builtins.int", "numpy.trunc", "math.trunc"):
+                            return int(a)
+                        if n in ("numpy.ceil", "math.ceil"):
+                            return _m.ceil(a)
+                        if n in ("numpy.floor", "math.floor"):
+                            return _m.floor(a)
+                    raise _No()
+                bad = None
+                try:
+                    comp_p = next((("param", p[0]) for p in s.params if p[0] != seq[1]), None)
+                    for c_ in range(1, 26):
+                        env0 = {comp_p: c_} if comp_p else {}
+                        dim = ev(z[2][0], env0)
+                        top = max(ev(val, {**env0, ("item", elem, 0): i_}) for i_ in range(alpha_n))
+                        if not (0 <= top < dim):
+                            bad = (c_, dim, top)
+                            break
+                except (_No, ZeroDivisionError, TypeError, ValueError):
+                    bad = "skip"
+                if bad != "skip":
+                    r.rep.ob(rule, q, bad is None, "every letter's coordinate lies inside the vector, for every compression 1..25", where, expected="dimension > largest coordinate",
+                             found="holds" if bad is None else f"compression={bad[0]}: dimension {bad[1]}, largest coordinate {bad[2]} (IndexError)", key="enc dimension")
 
 
 def check_extract(r, rule):
@@ -1779,6 +1832,16 @@ def check_buckets(r, rule):
     for st in sites:
         where = wh(r, q, st.node)
         _check_site_collection(r, rule, nn, st, "kdtree-buckets", mode)
+        # every length class is searched: only classes that cannot hold a pair (fewer than two members) may be skipped
+        for atom, pol in st.guards:
+            c = classify(nn, st, atom, pol, None)
+            if c[0] == "struct":
+                continue
+            if c == ("unknown", "candidate lists are filtered by length"):
+                r.rep.ob(rule + "-BKT", q, False, "every length class that can hold a pair is searched", where, expected="no class skipped (or only classes with fewer than two members)",
+                         found=("" if pol else "not ") + show(atom, 80), key="bucket skipped by size", lint=True)
+            else:
+                r.rep.require(False, f"{q}: the bucket search stands under {'' if pol else 'not '}{show(atom, 60)}; whether a length class with neighbours is skipped cannot be decided [{rule}-BKT]")
         if st.kind == "bulk":
             sp = st.extra["spaces"]
             r.rep.ob(rule + "-IST", q, sp[0] == seqs and sp[1] == seqs, "triplets produced for a sub-container are mapped back to input positions before they are returned (IST-5)", where,
